@@ -10,6 +10,7 @@ GNext == \/ Next /\ fin' = FALSE
 
 Emit == fin => PrintT(ToJson([method |-> in.method, enc |-> in.enc, ctype |-> in.ctype, size |-> in.size,
                               msg |-> in.msg, cfam |-> in.cfam, via |-> in.via, edns |-> in.edns,
+                              frame |-> in.frame, deliv |-> in.deliv,
                               allowed |-> Allowed(in), gray |-> FALSE,
                               fam |-> Family(in), prefix |-> Prefix(in), expM |-> Outcome]))
 =============================================================================
